@@ -98,7 +98,13 @@ def run(ctx):
         fe = facts.FactsEngine(prog, cg)
         IN, before = fe.analyse(f)
         loops = cfg.loop_blocks(f)
-        ctx.check(len(loops) == 1, "R08.3", f, "one-argument-loop", "formatter::str has %d loops" % len(loops), f)
+        if len(loops) != 1:
+            # two phases (collect the placeholders, compare the counts, then assemble) or any other shape with more than the one argument loop:
+            # the arity guards and the assembly equation are read off the single loop over (argument, regex match) pairs - another shape is
+            # not a verdict about the code, it is outside what these rules recognise
+            ctx.broken("R08.3", f, "one-argument-loop", "formatter::str has %d loops, not the one loop that walks arguments and placeholder matches together: idiom not recognised" % len(loops), f)
+            continue
+        ctx.ok("R08.3", f, "one-argument-loop", "one loop over (argument, placeholder match) pairs", f)
         body = loops[0][1] if loops else set()
         # `match iterator == past-the-end iterator`: an equality atom over two locals of regex_iterator type
         rit = {v["name"] for _, _, e in f.roots() if e["expr"].get("k") == "decl" for v in e["expr"]["vars"] if "regex_iterator" in (v.get("type") or "")}
@@ -140,9 +146,15 @@ def run(ctx):
         sn = streams[0]["name"] if streams else "str"
         ins = [b for b in body if re.fullmatch(r"\(%s << (forward\(%s\)|%s)\)" % (sn, p, p), b)]
         ctx.check(len(ins) == 1, "R08.4", f, "inserts-argument-once", "the argument is inserted %d times (%s)" % (len(ins), body), f)
-        other = [b for b in body if sn in b and b not in ins and not b.startswith("nitro::detail::formatter::stream_type") and not re.fullmatch(r"args_\.(emplace_back|push_back)\(%s\.str\(\)\)" % sn, b) and "stream" not in b.split("=")[0]]
+        # the finished text may be named before it is appended (`string_type text = str.str(); args_.push_back(std::move(text));`): a local whose
+        # only definition is the stream's text and whose only other use is the append
+        texts = [v["name"] for _, _, e in f.roots() if e["expr"].get("k") == "decl" for v in e["expr"]["vars"]
+                 if v.get("init") is not None and fmt(ir.unwrap(v["init"])) == "%s.str()" % sn and sum(len(re.findall(r"\b%s\b" % re.escape(v["name"]), b)) for b in body) == 2]
+        app_re = r"args_\.(emplace_back|push_back)\((%s\.str\(\)%s)\)" % (sn, "".join("|%s|move\(%s\)" % (re.escape(t), re.escape(t)) for t in texts))
+        text_decl = [b for b in body if any(re.fullmatch(r".*\b%s = %s\.str\(\)" % (re.escape(t), sn), b) for t in texts)]
+        other = [b for b in body if sn in b and b not in ins and b not in text_decl and not b.startswith("nitro::detail::formatter::stream_type") and not re.fullmatch(app_re, b) and "stream" not in b.split("=")[0]]
         ctx.check(not other, "R08.4", f, "stream-not-manipulated", "operator%% also does %s with the stream" % other, f)
-        ctx.check(any(re.fullmatch(r"args_\.(emplace_back|push_back)\(%s\.str\(\)\)" % sn, b) for b in body), "R08.4", f, "appends-text-at-end-of-args_", "the rendered text is not appended to args_ (%s)" % body, f)
+        ctx.check(any(re.fullmatch(app_re, b) for b in body), "R08.4", f, "appends-text-at-end-of-args_", "the rendered text is not appended to args_ (%s)" % body, f)
         ctx.check(body[-1:] == ["return (*this)"], "R08.4", f, "returns-self", "operator%% returns %s" % body[-1:], f)
     argsf = [f for f in prog.fns.values() if f.has_cfg and f.is_pattern and f.cls == FMT and f.name == "args" and f.params]
     ctx.need("R08.4", "formatter::args(a, rest...) (pattern)", len(argsf), 1)
